@@ -410,7 +410,10 @@ def _(E, c):
         v = c.args[0]
         # &Vec<T> -> &[T], &String -> &str, &T -> &T  : all identity in this value domain
         return v
-    return E.deref(c.args[0])
+    t = E.deref(c.args[0])
+    if isinstance(t, ObjV) and hasattr(t.obj, 'clone'):
+        return ObjV(t.obj.clone())
+    return t
 
 
 @model('re:^<.* as Deref>::deref$', 're:^<.* as DerefMut>::deref_mut$')
@@ -1916,3 +1919,23 @@ def _(E, c):
 
 def _range_builder(E, ty, vals):
     return StructV(ty, {i: v for i, v in enumerate(vals)})
+
+
+@model('once', 'iter::once', 're:^iter::sources::once::once$')
+def _(E, c):
+    return iter_obj(ListIter([c.args[0]]))
+
+
+@model('empty', 'iter::empty')
+def _(E, c):
+    if c.args:
+        return NotImplemented
+    return iter_obj(ListIter([]))
+
+
+@model('repeat_n', 'iter::repeat_n')
+def _(E, c):
+    n = E.deref(c.args[1]).v
+    if is_sym(n):
+        raise Inconclusive('repeat_n(symbolic)')
+    return iter_obj(ListIter([c.args[0]] * n))
